@@ -621,3 +621,90 @@ def oracle_c02(case, obs, res):
                     res.fail("result_object_disagrees", f"RunEngineResult {v}", **F(cause=cause))
     res.nontrivial = judged >= 1 and cause != "none"
     return res
+
+
+# ------------------------------------------------------------------------------------------ C06
+
+
+def oracle_c06(case, obs, res):
+    F = lambda **kw: _feat(case, obs, **kw, **interruption_features(obs))  # noqa: E731
+    if obs.stuck or obs.final_state != "idle":
+        res.classes.append("not_idle(C07)")
+        return res
+    world = obs.world
+    # ledger up to the moment the engine went idle after the last stage (before the probe)
+    end = None
+    if obs.probe is not None:
+        # first ledger index of the probe = ledger length at its first hook
+        ps = obs.probe.get("hook_start")
+        if ps is not None and ps < len(obs.hook):
+            end = obs.hook[ps]["ledger"]
+    led = world.ledger[:end]
+    per = {}
+    for seq, dev, op, info in led:
+        per.setdefault(dev, []).append((seq, op, info))
+    outstanding = 0
+    for dev, ops in per.items():
+        n_stage = sum(1 for _, op, _ in ops if op == "stage")
+        n_unstage = sum(1 for _, op, _ in ops if op == "unstage")
+        if n_stage >= 1:
+            outstanding += 1
+            if n_unstage < n_stage:
+                res.fail("left_staged", f"{dev}: staged {n_stage}x but unstaged {n_unstage}x when the engine went idle", **F(device=dev))
+            elif n_unstage > n_stage:
+                res.classes.append("over_unstaged")
+        sets = [seq for seq, op, _ in ops if op == "set"]
+        if sets:
+            outstanding += 1
+            stops = [seq for seq, op, _ in ops if op == "stop"]
+            if not stops or max(stops) < max(sets):
+                res.fail("not_stopped_after_set", f"{dev}: last set at ledger#{max(sets)} but last stop at {max(stops) if stops else None}", **F(device=dev))
+        kicks = [seq for seq, op, _ in ops if op == "kickoff"]
+        if kicks:
+            outstanding += 1
+            cols = [seq for seq, op, _ in ops if op in ("collect", "collect!raise")]
+            # a 'collect' message for this flyer executed after the kickoff also counts as an attempt
+            # (it may have been cancelled in flight before reaching the device)
+            kick_hooks = [hi for hi, h in enumerate(obs.hook) if h["msg"].command == "kickoff" and getattr(h["msg"].obj, "name", None) == dev]
+            col_hooks = [hi for hi, h in enumerate(obs.hook) if h["msg"].command == "collect" and getattr(h["msg"].obj, "name", None) == dev]
+            attempted_msg = bool(kick_hooks) and any(c > max(kick_hooks) for c in col_hooks)
+            if (not cols or max(cols) < max(kicks)) and not attempted_msg:
+                # was the flyer's run closed by a plan-issued close_run while it was still uncollected?
+                k = max(kick_hooks) if kick_hooks else None
+                key = obs.hook[k]["msg"].run if k is not None else None
+                closed_by_plan = k is not None and any(
+                    h["msg"].command == "close_run" and h["msg"].run == key for h in obs.hook[k + 1 :]
+                )
+                res.fail(
+                    "flyer_not_collected",
+                    f"{dev}: kicked off at ledger#{max(kicks)} and never collected afterwards",
+                    **F(device=dev, run_closed_by_plan_message=closed_by_plan),
+                )
+    from .devices import Sig
+
+    for name, d in world.devices.items():
+        if isinstance(d, Sig):
+            if any(op == "subscribe" for _, op, _ in per.get(name, [])):
+                outstanding += 1
+            # state of the subscription list when the engine went idle: replay the ledger
+            subs = []
+            for _, op, info in per.get(name, []):
+                if op == "subscribe":
+                    subs.append(info)
+                elif op == "clear_sub":
+                    subs = [x for x in subs if x != info]
+            if subs:
+                res.fail("monitor_subscription_left", f"{name}: {len(subs)} engine callback(s) still subscribed at idle", **F(device=name))
+    p = obs.probe
+    if p is not None and case.get("probe") == "run" and p.get("outcome") == "return":
+        if p.get("cb_docs_after", 0) != p.get("cb_docs_before", 0):
+            res.fail(
+                "temporary_subscription_survived",
+                f"a per-call / in-plan subscription of the previous call received {p['cb_docs_after'] - p['cb_docs_before']} documents of the next call",
+                **F(),
+            )
+    ended_abnormally = any(
+        c.get("outcome") == "raise" for c in obs.calls if c["do"] in ("call", "resume")
+    ) or any(c["do"] in TERMINATORS for c in obs.calls)
+    res.nontrivial = ended_abnormally and outstanding >= 1
+    return res
